@@ -23,8 +23,16 @@
 (*              <gC, C> + <gT, T> in every input (C05), and the energy     *)
 (*              gradient equals differences of the energy (C06)            *)
 (*  Metamorphic the five laws of C14                                       *)
+(*  Variational the closed forms of the analytic energy gradients, for     *)
+(*              every order, WITHOUT constants: with H = sum_j -(-1)^j     *)
+(*              c_j x^(s-j) x^(s+j) (c_0 = 1, c_j = 2) at the start of a   *)
+(*              segment, dE/dT_i = H_i; dE/dP_j = 2 (-1)^s times the jump  *)
+(*              of x^(2s-1) at knot j; dE/d(start d-th derivative) =       *)
+(*              2 (-1)^(s-d) x^(2s-1-d)(0) and the negative at the end.    *)
+(*              (These are what 12 (c3_R - c3_L), -36 c3^2 + 96 c2.c4 -    *)
+(*              240 c1.c5, ... in the code must equal.)  (C06)             *)
 (***************************************************************************)
-EXTENDS SplineMath, FiniteSets, SequencesExt
+EXTENDS SplineAlgo, FiniteSets, SequencesExt
 
 CONSTANTS MaxN,        \* largest segment count on the grid
           Durs,        \* set of duration values (rationals as strings)
@@ -138,6 +146,32 @@ EnergyGradOK == IsPoint =>
         EnergyOf(p) == Energy(MinCoeffs(p), p.s, p.T)
         g == Force(EnergyGrad(pr, C))
     IN GradOK(pr, EnergyOf, g)
+
+(* --------------- closed forms of the energy gradient (C06) ------------ *)
+Variational == IsPoint =>
+    LET pr == Force(Pr)  C == Force(MinCoeffs(pr))  s == pr.s  N == NSeg(pr)
+        g == Force(EnergyGrad(pr, C))
+        x(i, d, tau, col) == PolyEvalD(SegPoly(C, s, i, col), tau, d)
+        sg(n) == RPow("-1", n)
+        H(i) == RSum([col \in 1..D2 |-> RSum([j1 \in 1..s |->
+                   LET j == j1 - 1
+                   IN RMul(RMul(RNeg(sg(j)), IF j = 0 THEN One ELSE "2"), RMul(x(i, s - j, Zero, col), x(i, s + j, Zero, col)))])])
+    IN /\ \A i \in 1..N : g.times[i] = H(i)
+       \* H is constant along a segment of the minimiser (x^(2s) = 0): the same expression at the end of the segment
+       /\ \A i \in 1..N : H(i) = RSum([col \in 1..D2 |-> RSum([j1 \in 1..s |->
+                   LET j == j1 - 1
+                   IN RMul(RMul(RNeg(sg(j)), IF j = 0 THEN One ELSE "2"), RMul(x(i, s - j, pr.T[i], col), x(i, s + j, pr.T[i], col)))])])
+       /\ \A j \in 2..N : \A col \in 1..D2 :
+             g.points[j][col] = RMul(RMul("2", sg(s)), RSub(x(j, 2 * s - 1, Zero, col), x(j - 1, 2 * s - 1, pr.T[j - 1], col)))
+       /\ \A col \in 1..D2 :
+             /\ g.points[1][col] = RMul(RMul("2", sg(s)), x(1, 2 * s - 1, Zero, col))
+             /\ g.points[N + 1][col] = RNeg(RMul(RMul("2", sg(s)), x(N, 2 * s - 1, pr.T[N], col)))
+       /\ \A d \in 1..(s - 1) : \A col \in 1..D2 :
+             /\ g.bs[d][col] = RMul(RMul("2", sg(s - d)), x(1, 2 * s - 1 - d, Zero, col))
+             /\ g.be[d][col] = RNeg(RMul(RMul("2", sg(s - d)), x(N, 2 * s - 1 - d, pr.T[N], col)))
+
+(* ----------- the library's own equations and constants (SplineAlgo) --- *)
+Algo == IsPoint => LET pr == Force(Pr)  C == Force(MinCoeffs(pr)) IN AlgoEquationsHold(pr, C)
 
 (* ---------------------------- metamorphic ----------------------------- *)
 Metamorphic == IsPoint =>
